@@ -1,4 +1,4 @@
-import HyperModel.Proofs.Mempool
+import HyperModel.Proofs.MempoolHist
 /-!
 # C23 — the mempool keeps its bounds and ordering under any operation sequence
 
@@ -63,7 +63,8 @@ theorem expire_exact (u : ID → Item) (a b : Nat) (ops : List Op) (hw : WFOps u
   have := setMinTimestamp_spec (inv_reachable u a b ops hw).1 t
   exact ⟨this.2.1, this.2.2.1⟩
 
-/-- Hand-out order = queue order (`peekNext`, `popNext`, `stream`/`prepareStream`, `top` take from the
+/-- (Local, one-step statements; the history-level reading follows by composing them along a
+sequence.) Hand-out order = queue order (`peekNext`, `popNext`, `stream`/`prepareStream`, `top` take from the
 front); `add` appends the accepted items at the back in the order given; give-backs
 (`finishStreaming`, `top`) are put in front of everything else, the accepted ones in the reverse
 of the give-back order. -/
@@ -88,10 +89,11 @@ theorem fifo_restore_first (u : ID → Item) (a b : Nat) (ops : List Op) (hw : W
     obtain ⟨_, _, ⟨k, hk, _⟩, _⟩ := topLoop_spec (u := u) s.eh.len s ans [] [] h (by simp)
     exact ⟨k, by simpa [State.top] using hk⟩
 
-/-- Within a stream (since `streamedItems` was last reset) no ID is handed out twice: a batch
-taken by `stream`/`prepareStream` is duplicate-free, disjoint from everything handed out before in
-this stream, and is recorded; the record stays duplicate-free. -/
-theorem no_double_handout_in_stream (u : ID → Item) (a b : Nat) (ops : List Op) (hw : WFOps u ops) (n : Nat) :
+/-- Batch level (no protocol assumption): a batch taken from the queue by `stream`/`prepareStream` is
+duplicate-free, disjoint from everything recorded in `streamedItems`, and is recorded; the record
+stays duplicate-free. (This alone does NOT give the history-level clause: see
+`double_handout_without_protocol`.) -/
+theorem batch_disjoint_from_streamed (u : ID → Item) (a b : Nat) (ops : List Op) (hw : WFOps u ops) (n : Nat) :
     let s := (State.init a b).run ops
     let r := State.streamItems n s []
     (r.2.map (·.id)).Nodup ∧
@@ -108,6 +110,48 @@ theorem no_double_handout_in_stream (u : ID → Item) (a b : Nat) (ops : List Op
   · intro l hl
     refine ⟨h.sNodup l hl, fun x hx => h.sDisj l hl x ?_⟩
     rw [e] at hx; exact List.mem_of_mem_take hx
+
+/-- **no_double_handout_in_stream** (history level). `handed` = the IDs *returned by `Stream`* since
+the last successful `StartStreaming` (ghost list of `grun`, cleared by `FinishStreaming`). For every
+op sequence in which `PrepareStream` is only called while a stream is open (`ProtoOps`; this is how
+`chain/builder.go` uses it), `handed` never contains an ID twice — whatever `add`/`remove`/
+`setMinTimestamp`/`top`/… calls are interleaved. -/
+theorem no_double_handout_in_stream (u : ID → Item) (a b : Nat) (ops : List Op) (hw : WFOps u ops)
+    (hp : ProtoOps (State.init a b) ops) :
+    (grun (State.init a b, []) ops).1 = (State.init a b).run ops ∧
+    (grun (State.init a b, []) ops).2.Nodup := by
+  have hg0 : GInv (State.init a b, []) :=
+    ⟨fun _ => ⟨rfl, rfl⟩, fun h => by simp [State.init] at h⟩
+  obtain ⟨hg, hrun⟩ := grun_inv (u := u) ops (State.init a b, []) (MInv.init u a b) hg0 hw hp
+  refine ⟨hrun, ?_⟩
+  cases hl : (grun (State.init a b, []) ops).1.streamLocked with
+  | false => rw [(hg.idle hl).1]; exact List.nodup_nil
+  | true =>
+    obtain ⟨l, _, hnd, _⟩ := hg.busy hl
+    exact (List.nodup_append.1 hnd).1
+
+private def x0 : Item := ⟨0, 0, 1, 5⟩
+private def y0 : Item := ⟨1, 1, 2, 5⟩
+
+/-- The protocol assumption is needed (API misuse, not reachable from `chain/builder.go`): a prefetch
+made *before* `StartStreaming` survives the reset of `streamedItems`, so `add x` re-admits `x` and
+`Stream` returns it twice inside one stream: handed = [x, y, x]. Replayed on the Go code in every run
+(corpus of the harness; event `ev:double-handout-prefetch-before-start`). -/
+theorem double_handout_without_protocol :
+    (grun (State.init 8 8, []) [.add [x0, y0], .prepareStream 1, .startStreaming, .add [x0],
+      .stream 1, .stream 1, .stream 1]).2 = [0, 1, 0] := by decide +kernel
+
+/-- A second `PrepareStream` before the prefetch is consumed overwrites it: the first batch is neither
+returned, nor restored by `FinishStreaming`, nor held (the bounds/size clauses are unaffected: these
+items are simply gone), and stays blocked for `add` until the stream ends. Not reachable from
+`chain/builder.go` (its `prepareStreamLock` makes `Stream` consume each prefetch first). -/
+theorem prepare_overwrites_prefetch (u : ID → Item) (a b : Nat) (ops : List Op) (hw : WFOps u ops) (n : Nat) :
+    let s := (State.init a b).run ops
+    (s.prepareStream n).nextStream = s.queue.take n ∧ (s.prepareStream n).queue = s.queue.drop n ∧
+    (s.prepareStream n).nextStreamFetched = true := by
+  intro s
+  obtain ⟨i1, i2, _⟩ := streamItems_spec (u := u) n s [] (inv_reachable u a b ops hw).1
+  exact ⟨by simpa [State.prepareStream] using i1, by simpa [State.prepareStream] using i2, rfl⟩
 
 /-- An `add` (or give-back) of an ID handed out in the open stream is ignored, and such an ID is
 never held while the stream is open. -/
@@ -182,6 +226,10 @@ example : WFOps u0 [.add [u0 1, u0 2, u0 3], .startStreaming, .stream 1, .add [u
   intro op hop
   simp only [List.mem_cons, List.mem_nil_iff, or_false] at hop
   rcases hop with rfl | rfl | rfl | rfl | rfl | rfl <;> simp [Op.WF, Canon, u0]
+
+example : ProtoOps (State.init 4 4) [.add [u0 1, u0 2], .startStreaming, .stream 1, .prepareStream 1,
+    .stream 1, .finishStreaming [u0 1]] :=
+  ⟨trivial, trivial, trivial, by show State.streamLocked _ = true; decide +kernel, trivial, trivial, trivial⟩
 
 /-- the third item is refused by `maxSize = 2`; a streamed item is refused until `finish` -/
 example : ((State.init 2 2).run [.add [u0 1, u0 2, u0 3]]).queue.map (·.id) = [1, 2] := by decide
